@@ -574,6 +574,21 @@ func c09Fixed(cfg Config, res *Result) {
 		{"{% for r in rows1 %}{% ifchanged r.0 r.1 %}[{{ r.0 }}{{ r.1 }}]{% endifchanged %}{% endfor %}", "[ann1][bob2]"},
 		{"{% for r in rows2 %}{% ifchanged r.0 r.1 %}[{{ r.0 }}{{ r.1 }}]{% endifchanged %}{% endfor %}", "[ann1][bob2][bob1]"},
 		{"{% for r in rows3 %}{% ifchanged r.0 r.1 r.2 %}[{{ r.0 }}{{ r.1 }}{{ r.2 }}]{% else %}={% endifchanged %}{% endfor %}", "[a1x][b2y]=[b2x][a2x]="},
+		// ifequal / ifnotequal are complementary, also when there is nothing on either side
+		{"{% ifequal nosuch nothing %}E{% else %}e{% endifequal %}{% ifnotequal nosuch nothing %}N{% else %}n{% endifnotequal %}", "eN"},
+		{"{% ifequal nl nosuch %}E{% endifequal %}{% ifnotequal nl nosuch %}N{% endifnotequal %}|{% ifequal nl nl %}E{% endifequal %}{% ifnotequal nl nl %}N{% endifnotequal %}", "N|N"},
+		{"{% for v in anys %}{% ifequal v nosuch %}E{% endifequal %}{% ifnotequal v nosuch %}N{% endifnotequal %}{% endfor %}", "NNN"},
+		{"{% ifequal 1 1 %}E{% endifequal %}{% ifnotequal 1 1 %}N{% endifnotequal %}{% ifequal \"\" nosuch %}E{% endifequal %}{% ifnotequal \"\" nosuch %}N{% endifnotequal %}", "EN"},
+		// truthiness of floats: only zero is false
+		{"{% for f in floats %}{% if f %}T{% else %}F{% endif %}{% endfor %}", "TTFTTTT"},
+		{"{% if 0 %}A{% elif half %}B{% else %}C{% endif %}|{% firstof 0 half 7 %}|{% firstof 0.0 \"\" tiny %}", "B|0.500000|0.001000"},
+		{"{% if not half %}n{% else %}y{% endif %}{% if half and tiny %}y{% endif %}{% if 0.0 or tiny %}y{% endif %}", "yyy"},
+		// ifchanged: the else branch without watched expressions; a watched value that stays nothing
+		{"{% for x in dup %}{% ifchanged %}{{ x }}{% else %}={% endifchanged %}{% endfor %}", "1=2=="},
+		{"{% for x in dup %}{% ifchanged nosuch %}C{% else %}S{% endifchanged %}{% endfor %}", "CSSSS"},
+		{"{% for x in anys %}{% ifchanged x %}C{% else %}S{% endifchanged %}{% endfor %}", "CSC"},
+		// sorted over unsigned values beyond the range of int
+		{"{% for x in us sorted %}{{ x }} {% endfor %}|{% for x in us reversed sorted %}{{ x }} {% endfor %}", "1 5 9223372036854775808 18446744073709551615 |18446744073709551615 9223372036854775808 5 1 "},
 		// (whether a loop of an included template counts the including loop as its parent is not fixed by the property: not checked)
 		{`{% include "inner.tpl" %}|{% for j in l %}{% endfor %}{% include "inner.tpl" %}`, "78|78"},
 	} {
@@ -586,6 +601,8 @@ func c09Fixed(cfg Config, res *Result) {
 			got.err = err.Error()
 		} else {
 			got = execOnce(tpl, pongo2.Context{"m": map[string]int{"a": 1, "b": 2}, "l": []int{7, 8},
+				"nl": nil, "anys": []any{nil, nil, 1}, "floats": []float64{2.5, 0.5, 0, -0.25, 1, 0.001, -3}, "half": 0.5, "tiny": 0.001,
+				"dup": []int{1, 1, 2, 2, 2}, "us": []uint64{1 << 63, 1, 18446744073709551615, 5},
 				"rows1": [][]any{{"ann", 1}, {"bob", 2}, {"bob", 2}}, "rows2": [][]any{{"ann", 1}, {"bob", 2}, {"bob", 1}},
 				"rows3": [][]any{{"a", 1, "x"}, {"b", 2, "y"}, {"b", 2, "y"}, {"b", 2, "x"}, {"a", 2, "x"}, {"a", 2, "x"}}})
 		}
